@@ -10,7 +10,7 @@ from fractions import Fraction
 VERIF = os.path.dirname(os.path.dirname(os.path.abspath(__file__)))
 OUT = os.path.join(VERIF, "out")
 REPLAYS = os.path.join(OUT, "replays")
-EVID = os.path.join(VERIF, "evidence")
+EVID = os.environ.get("VERIF_EVIDENCE_DIR") or os.path.join(VERIF, "evidence")
 KNOWN = os.path.join(VERIF, "known_findings.json")
 REPO = os.environ.get("DREYE_REPO", "/repo")
 NPROC = min(16, os.cpu_count() or 4)
